@@ -528,6 +528,7 @@ STREAM_PLANS = [
     {"short": 1}, {"short": 7}, {"short": 7, "fail_at_byte": 200, "errno": "ENOSPC"}, {"short": 3, "fail_close": True, "errno": "EIO"},
 ]
 PROBE_QUAL = "verif.probe.ProbeSolver"
+PROBE_VALUES_QUAL = "verif.probe.ProbeValues"
 
 
 def unknown_names(cls):
@@ -550,6 +551,15 @@ def unknown_names(cls):
             if cand not in params and cand not in out and cand != "verbose":
                 out.append(cand)
     return out
+
+
+def dec_kw(kw):
+    from .codec import dec
+    return dec(kw)
+
+
+def fixed_n_family(fam):
+    return any(getattr(ps.pts, "fixed_n", False) for ps in fam.pool)
 
 
 def missing_params(cls):
@@ -578,6 +588,11 @@ def conformance(g, client, qual, rng, tier):
     st = g.new_op(client, fam, qual=qual, bad="unknown")
     if st is not None:
         g.ops[-1]["expect"] = "ValueError"
+        if rng.random() < 0.3:
+            # the same unknown name together with the documented verbose flag: still a ValueError
+            kwv = dec_kw(g.ops[-1]["kw"])
+            kwv["verbose"] = True
+            g.ops[-1]["kw"] = enc(kwv)
     yield
     miss = missing_params(cls)
     if miss and fam.name != "blake":
@@ -596,7 +611,15 @@ def conformance(g, client, qual, rng, tier):
     yield
     fixed_n = getattr(fam.pool[st.pi].pts, "fixed_n", False)
     n = rng.choice([1, 2, 3, 7, 40])
+    if fam.cost == "cheap" and not fixed_n_family(fam) and rng.random() < 0.06:
+        n = rng.choice([300, 1500])      # more records than any buffer chunk or row batch
     pts, thex, layout = g.request_points(st, n=n)
+    if fam.gran not in ("mader", "mesh") and rng.random() < 0.3:
+        # duplicated points: N records all the same, in the order given
+        ax = 1 if layout == "2N" else 0
+        k = pts.shape[ax]
+        idx = list(range(k)) + [rng.randrange(k) for _ in range(rng.randint(1, 3))]
+        pts = world.np.take(pts, idx, axis=ax)
     if fam.gran not in ("mader", "mesh") and rng.random() < 0.7:
         order = list(range(pts.shape[1 if layout == "2N" else 0]))
         rng.shuffle(order)      # "any ordering of points"
@@ -654,6 +677,8 @@ def make_c05_run(seed, tier, index):
     visits = [census[(index * 7 + j * 41) % len(census)] for j in range(n_visit)]
     if index % 9 == 4 and PROBE_QUAL in world.CENSUS:
         visits.append(PROBE_QUAL)
+    if index % 5 == 2 and PROBE_VALUES_QUAL in world.CENSUS:
+        visits.append(PROBE_VALUES_QUAL)
     fams = tier_families(tier, "C05")
     chosen = pick_families(rng, [f for f in fams if f.cost == "cheap" or rng.random() < 0.3], rng.choice([1, 2]), "C05")
     g = Gen(rng, fams, cfg)
